@@ -361,7 +361,9 @@ PPL::Grid::frequency_no_check(const Linear_Expression& expr,
   // in `gen_sys'.
   const dimension_type num_rows = gen_sys.num_rows();
   PPL_DIRTY_TEMP_COEFFICIENT(sp);
-  freq_n = 0;
+  // Do not touch the output arguments until the answer is known.
+  PPL_DIRTY_TEMP_COEFFICIENT(freq);
+  freq = 0;
 
   // As the generators are minimized, `gen_sys[0]' is a point
   // and considered later.
@@ -377,9 +379,10 @@ PPL::Grid::frequency_no_check(const Linear_Expression& expr,
     // `gen' must be a parameter.
     PPL_ASSERT(gen.is_parameter());
     if (sgn(sp) != 0) {
-      gcd_assign(freq_n, freq_n, sp);
+      gcd_assign(freq, freq, sp);
     }
   }
+  freq_n = freq;
   const Grid_Generator& point = gen_sys[0];
   PPL_ASSERT(point.is_point());
 
@@ -392,8 +395,17 @@ PPL::Grid::frequency_no_check(const Linear_Expression& expr,
   Scalar_Products::homogeneous_assign(val_n, expr, point);
   val_n += expr.inhomogeneous_term() * val_d;
 
-  // Reduce `val_n' by the frequency `freq_n'.
+  // Reduce `val_n' by the frequency `freq_n', choosing the
+  // representative that is closest to zero.
   val_n %= freq_n;
+  if (2 * abs(val_n) > freq_n) {
+    if (val_n > 0) {
+      val_n -= freq_n;
+    }
+    else {
+      val_n += freq_n;
+    }
+  }
 
   PPL_DIRTY_TEMP_COEFFICIENT(gcd);
   // Reduce `freq_n' and `freq_d'.
@@ -419,7 +431,7 @@ PPL::Grid::max_min(const Linear_Expression& expr,
       return false;
     }
     if (space_dim == 0) {
-      ext_n = 0;
+      ext_n = expr.inhomogeneous_term();
       ext_d = 1;
       included = true;
       if (point != nullptr) {
@@ -437,8 +449,8 @@ PPL::Grid::max_min(const Linear_Expression& expr,
 
     const Grid_Generator& gen = gen_sys[0];
     Scalar_Products::homogeneous_assign(ext_n, expr, gen);
-    ext_n += expr.inhomogeneous_term();
     ext_d = gen.divisor();
+    ext_n += expr.inhomogeneous_term() * ext_d;
     // Reduce ext_n and ext_d.
     PPL_DIRTY_TEMP_COEFFICIENT(gcd);
     gcd_assign(gcd, ext_n, ext_d);
